@@ -148,6 +148,10 @@ class SubsetGroup(HubListener):
 
     def _add_data(self, data):
         # add a new data object to group
+        if any(s.data is data for s in self.subsets):
+            # already a member, e.g. if the group was created after the
+            # dataset was added but before the (delayed) message was delivered
+            return
         s = GroupedSubset(data, self)
         data.add_subset(s)
         self.subsets.append(s)
